@@ -169,7 +169,24 @@ func runC14(c *fw.Ctx) {
 			break
 		}
 		obs := e.Last
-		switch r.Weighted([]int{30, 14, 14, 12, 10, 20}) {
+		switch r.Weighted([]int{30, 14, 14, 12, 10, 12, 8}) {
+		case 6: // a module account (gov) as purchaser: raised through a governance proposal, then accepted
+			sg := g.signers(obs)
+			if len(sg) == 0 {
+				break
+			}
+			govAddr := lab.ModAddr("gov")
+			e.Block(time.Second, g.plan(sg[0], nil, &enttypes.MsgWhitelistAddress{Address: govAddr.String(), Signer: sg[0].Addr.String(), Action: enttypes.WhitelistActionAdd}))
+			before := e.Last.NextPO
+			e.Gov("purchase order by the gov account", &enttypes.MsgUndPurchaseOrder{Purchaser: govAddr.String(), Amount: sdk.NewInt64Coin(e.Last.EntParams.Denom, int64(r.Range(1, 99999)))})
+			if e.Halted == "" && e.Last.NextPO > before {
+				for _, s := range g.signers(e.Last) {
+					e.Block(time.Second, g.plan(s, nil, &enttypes.MsgProcessUndPurchaseOrder{PurchaseOrderId: before, Decision: enttypes.StatusAccepted, Signer: s.Addr.String()}))
+				}
+				e.Block(time.Second)
+				e.Block(time.Second)
+				c.Count("module_account_purchaser_orders", 1)
+			}
 		case 0: // enterprise parameter change, possibly incl. the denomination, while orders may be queued
 			p := obs.EntParams
 			n := r.Range(1, 3)
